@@ -12,3 +12,21 @@ package dialect
 //@   modifies nothing
 //@   trusted
 //@   assumes  the message table is not modified after Initialize, so GetMessage is a function of (rw, id): ufDialectHas / ufDialectExtra / ufDialectCodec are DEFINED by its results
+
+//@ func (*ReadWriter).Initialize
+//@   ghostlog (*message.ReadWriter).Initialize
+//@   requires rw != nil && rw.Dialect != nil
+//@   requires forall j int :: 0 <= j && j < len(rw.Dialect.Messages) ==> rw.Dialect.Messages[j] != nil
+//@   ensures  [all-registered] err == nil ==> (forall j int :: 0 <= j && j < len(rw.Dialect.Messages) ==>
+//@              mapHasKey(rw.messageRWs, rw.Dialect.Messages[j].GetID()))
+//@   ensures  [duplicates-refused] (exists k int :: 0 <= k && k < len(rw.Dialect.Messages) && (exists j int :: 0 <= j && j < k &&
+//@              rw.Dialect.Messages[j].GetID() == rw.Dialect.Messages[k].GetID())) ==> err != nil
+//@   canary   err != nil
+//@   canary   err == nil
+//@   modifies rw.messageRWs, ghost:log
+//@   loop 0 bind i int = rangeindex
+//@   loop 0 invariant -1 <= i && i < len(rw.Dialect.Messages) && rw.messageRWs != nil
+//@   loop 0 invariant forall j int :: 0 <= j && j <= i ==> mapHasKey(rw.messageRWs, rw.Dialect.Messages[j].GetID())
+//@   loop 0 invariant forall k int :: 0 <= k && k <= i ==> (forall j int :: 0 <= j && j < k ==>
+//@                      rw.Dialect.Messages[j].GetID() != rw.Dialect.Messages[k].GetID())
+//@   loop 0 modifies *rw.messageRWs
